@@ -132,7 +132,7 @@ def parse(out, res):
             buf = None
             continue
         if cur is not None:
-            m = re.match(r"^/\\ (\w+) = (.*)$", ln)
+            m = re.match(r"^(?:/\\ )?(\w+) = (.*)$", ln)
             if m:
                 buf = m.group(1)
                 cur[buf] = m.group(2)
